@@ -78,6 +78,10 @@ func (pass *DisjunctionInferMapping) ensureDiscriminator(schema *ast.Schema, def
 //
 // Note: this function assumes a disjunction of references to structs.
 func (pass *DisjunctionInferMapping) inferDiscriminatorField(schema *ast.Schema, def *ast.DisjunctionType) (string, bool) {
+	if len(def.Branches) == 0 {
+		return "", false
+	}
+
 	fieldName := ""
 	// map[typeName][fieldName]value
 	candidates := make(map[string]map[string]any)
